@@ -276,6 +276,56 @@ pub(crate) fn location_from_span(span: &ParserSpan) -> Location {
     })
 }
 
+/// Length (bytes, characters) of the quoted scalar token that starts at the beginning of `src`,
+/// closing quote included, or `None` if `src` does not start with a complete quoted scalar.
+fn quoted_token_len(src: &str) -> Option<(usize, usize)> {
+    let mut chars = src.char_indices().peekable();
+    let (_, quote) = chars.next()?;
+    if quote != '"' && quote != '\'' {
+        return None;
+    }
+    let mut count = 1usize;
+    while let Some((i, c)) = chars.next() {
+        count += 1;
+        if c == '\\' && quote == '"' {
+            // escaped character: skip it
+            if chars.next().is_some() {
+                count += 1;
+            }
+        } else if c == quote {
+            if quote == '\'' && matches!(chars.peek(), Some((_, '\''))) {
+                // '' inside a single-quoted scalar is an escaped quote
+                chars.next();
+                count += 1;
+            } else {
+                return Some((i + c.len_utf8(), count));
+            }
+        }
+    }
+    None
+}
+
+/// The parser reports the end of a quoted scalar only after the blanks (and a comment) that
+/// follow it. Shrink the span of `location` so that it covers exactly the scalar's source text.
+pub(crate) fn trim_quoted_scalar_span(location: Location, input: &str) -> Location {
+    let span = location.span;
+    let (start, old_len) = (span.byte_info.0 as usize, span.byte_info.1 as usize);
+    if span.byte_info == (0, 0) {
+        return location;
+    }
+    let Some(src) = input.get(start..start.saturating_add(old_len)) else {
+        return location;
+    };
+    match quoted_token_len(src) {
+        Some((bytes, chars)) if bytes <= old_len => location.with_span(Span {
+            offset: span.offset,
+            len: chars as SpanIndex,
+            byte_info: (span.byte_info.0, bytes as SpanIndex),
+        }),
+        _ => location,
+    }
+}
+
 /// Pair of locations for values that may come indirectly from YAML anchors.
 ///
 /// - `reference_location`: where the value is *used* (alias/merge site).
